@@ -246,8 +246,8 @@ SUBCHECKS = [
     Sub('direct', gen, ev, chunk=4, floor=1000, envs=6),
     Sub('bands', gen_bands, ev, chunk=4, floor=300),
     Sub('mp', gen_mp, ev_mp, chunk=2, floor=100),
-    Sub('threads', _tg, _te, chunk=1, floor=3, poison=False, fresh=True, timeout=3600),
-    Sub('many_objects', *_mo.make('C04', 'geodesy'), chunk=1, floor=3, poison=False, fresh=True, timeout=3600), Sub('callforms', *_cf.make('C04', 'geodesy'), chunk=1, floor=1, guard=True),
+    Sub('threads', _tg, _te, chunk=1, floor=3, poison=False, fresh=True, timeout=7200),
+    Sub('many_objects', *_mo.make('C04', 'geodesy'), chunk=1, floor=3, poison=False, fresh=True, timeout=7200), Sub('callforms', *_cf.make('C04', 'geodesy'), chunk=1, floor=1, guard=True),
     Sub('interpreter', *_ip.make('C04', 'geodesy'), chunk=1, floor=5, poison=False),
 ]
 
